@@ -22,7 +22,7 @@ RULE = ("cases = generated 20-field tables (stratified over column permutations,
 ASSUMPTIONS = ["EM header layout: byte0 machine code 6 (little endian), byte3 dtype code 5 = float32, int32 dims at 4..16, "
                "data from byte 512 with x fastest", "values equal means numeric equality of float32 values (-0.0 == 0.0)"]
 
-CLASSES = ["identity", "reversed", "rotated", "random_perm", "nan_holes", "nan_after_construction", "extreme_values",
+CLASSES = ["zero_rows", "identity", "reversed", "rotated", "random_perm", "nan_holes", "nan_after_construction", "extreme_values",
            "n1", "int_dtypes", "odd_index", "dict_order"]
 CANON = gens.COLS
 
@@ -157,11 +157,24 @@ def gen(ctx, i, cls):
         holes = rng.random((n, 20)) < nan_frac
         if not holes.any():
             holes[rng.integers(0, n), rng.integers(0, 20)] = True
+    if cls == "zero_rows" or rng.random() < 0.1:
+        # particles whose 20 fields are all 0 (or all missing): still particles, must survive in place
+        zr = rng.random(n) < 0.35
+        zr[int(rng.integers(0, n))] = True
+        df.loc[zr, :] = 0.0
+        if cls == "zero_rows" and rng.random() < 0.5:
+            holes = np.zeros((n, 20), dtype=bool) if holes is None else holes
+            holes[zr, :] = True
+            df.loc[zr, :] = rng.normal(size=(int(zr.sum()), 20))      # values that are then punched out as NaN
+            for c in df.columns:
+                df[c] = df[c].astype(float)
+        if cls == "zero_rows":
+            perm = rng.permutation(20) if rng.random() < 0.5 else perm
     names = [CANON[k] for k in perm]
     path_kind = ["Motl.write_out", "EmMotl.write_out"][int(rng.integers(0, 2))]
     case = {"df": df, "names": names, "holes": holes, "cls": cls, "path_kind": path_kind, "valcls": valcls,
             "index_kind": "odd" if cls == "odd_index" else "range", "i": i,
-            "identity": bool(np.array_equal(perm, np.arange(20))), "has_nan": holes is not None}
+            "identity": bool(np.array_equal(perm, np.arange(20))), "has_nan": holes is not None or cls == "zero_rows"}
     case["summary"] = {"n": n, "column_order": names, "write_path": path_kind, "values": valcls,
                        "nan_cells": int(holes.sum()) if holes is not None else 0, "index": case["index_kind"],
                        "row0": {k: float(df[k].iloc[0]) for k in ("score", "subtomo_id", "x", "phi", "class")}}
